@@ -720,7 +720,9 @@ def run_case(sc, opts):
             if m["kind"] == "bad":
                 # a fresh bytes object per message (never the receiver's own QUEUE_DONE object, whatever its value)
                 data = bytes(bytearray(m["payload"])) if m.get("payload") is not None else b"\xff not a message %d" % i
-                assert data is not rmod.QUEUE_DONE and bytes(data) not in ids, "scenario: duplicate payload"
+                # (CPython has ONE empty bytes object: if the receiver's sentinel is b"" the empty payload IS the sentinel. That is
+                # the implementation's doing, not a flaw of the scenario - the run goes on and the oracles judge it.)
+                assert bytes(data) not in ids, "scenario: duplicate payload"
             else:
                 name = m.get("task") or ("unknown_task" if m["kind"] == "unk" else ("ts" if m.get("style") == "sync" else "ta"))
                 if m.get("wire"):
